@@ -65,7 +65,7 @@ def _same(eng, r1, r2, label):
         # compatible units may differ in dimensionless root units (radian, count, bit):
         # physical equality is dimensionality + root magnitude
         eng.prove(r1.dimensionality == r2.dimensionality, label + ":dimensionality")
-        strip = lambda d: {k: e for k, e in d.items() if k not in ("radian", "count", "bit")}
+        strip = lambda d: {k: e for k, e in d.items() if k not in _dimensionless_roots()}
         eng.prove(strip(u1) == strip(u2), label + ":root-units")
         eng.prove(Eq(m1, m2), label + ":value")
     else:
@@ -74,6 +74,13 @@ def _same(eng, r1, r2, label):
             eng.prove(Iff(r1, r2), label + ":truth")
         except TypeError:
             eng.prove(Eq(r1, r2), label + ":number")
+
+
+def _dimensionless_roots():
+    from ..ref import refdefs
+
+    d = refdefs.default()
+    return {n for n, u in d.units.items() if u.is_base and u.dim == "[]"}
 
 
 def _run(fn):
